@@ -359,17 +359,19 @@ theorem Framed.of_same {e : Env} {σ σ' : St} {t r : Nat} (hse : SameEntries σ
 
 /-- **one forward task, framing**: a successful `scheduleTask` of a forward effort task with the single resource `r`,
     started with nothing of the task on `r`, leaves it framed -/
-theorem scheduleTask_framed (e : Env) (wf : WF e) (σ : St) (t r : Nat)
-    (hinv : Inv e σ) (hel : Elig e t r) (hb : t < σ.ts.size) (hf : (σ.tst t).forward = true)
+theorem scheduleTask_framed_sel (e : Env) (wf : WF e) (σ : St) (t r : Nat)
+    (hinv : Inv e σ) (hlf : (e.taskD t).leaf = true) (hal : (e.taskD t).hasAlloc = true)
+    (hnm : (e.taskD t).milestone = false) (hpos : 0 < (e.taskD t).effort)
+    (hsel0 : selectBest e (σ.setT t (σ.tst t)) (e.taskD t).alloc (e.taskD t).alt (e.taskD t).effort (initCursor e σ t).1 = [r])
+    (hb : t < σ.ts.size) (hf : (σ.tst t).forward = true)
     (hnd : (σ.tst t).done = false) (hclean : ∀ i, usageOf (σ.led.get r i).usage t = none)
     (hok : (scheduleTask e σ t).2 = true) : Framed e (scheduleTask e σ t).1 t r := by
-  have hpos := hel.effort
   have hz : ((e.taskD t).effort == 0) = false := by
     simp only [beq_eq_false_iff_ne, ne_eq]; grind
   have hpc : preStartCursor e σ t (initCursor e σ t).1 = (initCursor e σ t).1 := by
-    unfold preStartCursor; simp [hel.alloc]
+    unfold preStartCursor; simp [hal]
   have hpt : preStartT e σ t (initCursor e σ t).1 = σ.tst t := by
-    unfold preStartT; simp [hel.alloc]
+    unfold preStartT; simp [hal]
   have hoff := initCursor_off e σ t wf
   unfold scheduleTask at hok ⊢
   simp only [hnd, Bool.false_eq_true, if_false, hpc, hpt, hf] at hok ⊢
@@ -386,11 +388,11 @@ theorem scheduleTask_framed (e : Env) (wf : WF e) (σ : St) (t r : Nat)
         by rw [size_setT]; exact hb, by rw [tst_setT_same _ _ _ hb]; exact hf, Rat.le_refl,
         ⟨fun _ i hi => absurd hi List.not_mem_nil, fun hne => absurd rfl hne⟩⟩
     have hs0 : selectedOf e (σ.setT t (σ.tst t)) t { cur := (initCursor e σ t).1, offset := (initCursor e σ t).2 } = [r] := by
-      unfold selectedOf; exact hel.sel _ _
+      unfold selectedOf; exact hsel0
     by_cases hfin : (walkLoop e t true (e.size.toNat + 3) (σ.setT t (σ.tst t))
         { cur := (initCursor e σ t).1, offset := (initCursor e σ t).2 }).2.2 = true
     · simp only [hfin, Bool.not_true, Bool.false_eq_true, if_false] at hok ⊢
-      have hfr := walkLoop_framed e wf t r _ _ _ [] h0 hel.leaf hw hel.alloc hel.nomile hs0 hpos hpos hfi hfin
+      have hfr := walkLoop_framed e wf t r _ _ _ [] h0 hlf hw hal hnm hs0 hpos hpos hfi hfin
       have hsz : t < (walkLoop e t true (e.size.toNat + 3) (σ.setT t (σ.tst t))
           { cur := (initCursor e σ t).1, offset := (initCursor e σ t).2 }).1.ts.size := by
         rw [(walkLoop_frame e t true _ _ _).2.2.2.2, size_setT]; exact hb
@@ -407,6 +409,14 @@ theorem scheduleTask_framed (e : Env) (wf : WF e) (σ : St) (t r : Nat)
         { cur := (initCursor e σ t).1, offset := (initCursor e σ t).2 }).2.2 = false := by simpa using hfin
       simp only [hfin', Bool.not_false, if_true] at hok
       exact Bool.noConfusion hok
+
+/-- **one forward task, framing**: a successful `scheduleTask` of a forward effort task with the single resource `r`,
+    started with nothing of the task on `r`, leaves it framed -/
+theorem scheduleTask_framed (e : Env) (wf : WF e) (σ : St) (t r : Nat)
+    (hinv : Inv e σ) (hel : Elig e t r) (hb : t < σ.ts.size) (hf : (σ.tst t).forward = true)
+    (hnd : (σ.tst t).done = false) (hclean : ∀ i, usageOf (σ.led.get r i).usage t = none)
+    (hok : (scheduleTask e σ t).2 = true) : Framed e (scheduleTask e σ t).1 t r :=
+  scheduleTask_framed_sel e wf σ t r hinv hel.leaf hel.alloc hel.nomile hel.effort (hel.sel _ _) hb hf hnd hclean hok
 
 end SP
 
